@@ -119,7 +119,29 @@ def eos_registry(extra_facts=True):
             return [Eq(_s["w"](t), _s["e"](t) + _s["p"](t))] if extra_facts else []
         for name in ("p", "dp", "ddp", "e", "de", "w", "csq"):
             reg[f"Thermodynamics.{name}{ph}T"] = pure_call(lambda so, t, _f=s[name]: _f(t), facts)
+    reg.update(template_solver_registry())
     return reg
+
+
+def template_solver_registry():
+    """The template model's SOLVER methods as seen from the general solver: values of the *other* implementation (uninterpreted
+    functions `template.<method>`), never inlined and never confused with the general solver's own results.  A contract of the general
+    solver that expects the full matching and finds a template value in its place fails (seed C06c)."""
+    def tup(name, n):
+        def call(it, so, a, k):
+            args = [x for x in a if x is None or is_scalar(x)]
+            it.event(kind="contract-call", name=f"template.{name}", args=list(a))
+            fs = [specfun(f"template.{name}.{j}")(*[x if x is not None else sym.to_sym(-1) for x in args]) for j in range(n)]
+            return tuple(fs) if n > 1 else fs[0]
+        return call
+
+    def is_scalar(x):
+        import sympy as _sp
+        return isinstance(x, (int, float, _sp.Basic))
+    return {"HydrodynamicsTemplateModel.findMatching": tup("findMatching", 4), "HydrodynamicsTemplateModel.findHydroBoundaries": tup("findHydroBoundaries", 5),
+            "HydrodynamicsTemplateModel.findvwLTE": tup("findvwLTE", 1), "HydrodynamicsTemplateModel.efficiencyFactor": tup("efficiencyFactor", 1),
+            "HydrodynamicsTemplateModel.maxAl": tup("maxAl", 1), "HydrodynamicsTemplateModel.solveAlpha": tup("solveAlpha", 1),
+            "HydrodynamicsTemplateModel.detonationVAndT": tup("detonationVAndT", 4)}
 
 
 EOS_ASSUMPTION = ("callee contract (proved in C10): Thermodynamics.{p,dp,ddp,e,de,w,csq}{High,Low}T are pure functions of T "
@@ -187,3 +209,35 @@ def template_cross(chk, method, paths, argnames, sample_args, result=None, rtol=
     chk.cross(Cross(f"HydrodynamicsTemplateModel.{method}", paths, sample, scenario, rtol=rtol, **kw))
 
 
+# ---- class-level frames, on the real AST
+def class_frame(chk, module, cls, writable, constructors=("__init__",), label=None):
+    """For every method of ``cls`` other than its constructors: the attributes of self it can write (directly or through methods of the
+    same object) are within ``writable`` (dict method -> set, key "*" = any method).  This is the frame that lets the per-call contracts
+    of the other methods treat the remaining attributes as constants of the object (history independence)."""
+    import ast as _ast
+    from wgvc import source
+    from wgvc.effects import frame_of
+    mi = source.load_module(module)
+    cdef = mi.classes[cls]
+    n = 0
+    for st in cdef.body:
+        if not isinstance(st, _ast.FunctionDef) or st.name in constructors:
+            continue
+        f = frame_of(module, cls, st.name)
+        allowed = set(writable.get("*", set())) | set(writable.get(st.name, set()))
+        ok = f["stores"] <= allowed
+        chk.vc(f"{label or cls}.frame.{st.name}.writes-only-declared-state", [], sym.to_sym(bool(ok)), func=f"{module}.{cls}.{st.name}", kind="frame",
+               meta={"stores": sorted(f["stores"]), "allowed": sorted(allowed)})
+        n += 1
+    if n == 0:
+        chk.undecided.append(f"class frame of {cls}: no methods found")
+
+
+def hydro_frame(chk):
+    """Hydrodynamics: the window constants (vJ, vMin, vBracketLow, the temperature ranges, Tnucl, tolerances, collaborators) are written by
+    the constructor only; the only per-call state is the convergence flag and the two phase-trace-limit flags."""
+    class_frame(chk, "hydrodynamics", "Hydrodynamics", {"*": {"success", "doesPhaseTraceLimitvmax", "doesPhaseTraceLimitvmax[...]"}})
+
+
+def template_frame(chk):
+    class_frame(chk, "hydrodynamicsTemplateModel", "HydrodynamicsTemplateModel", {"*": set()})
